@@ -124,6 +124,19 @@ func (r *raftState) setLastSnapshot(index, term uint64) {
 	r.lastLock.Unlock()
 }
 
+// advanceLastSnapshot records a snapshot as the last one unless a snapshot with
+// a higher index has been recorded meanwhile. It reports whether it did.
+func (r *raftState) advanceLastSnapshot(index, term uint64) bool {
+	r.lastLock.Lock()
+	defer r.lastLock.Unlock()
+	if index <= r.lastSnapshotIndex {
+		return false
+	}
+	r.lastSnapshotIndex = index
+	r.lastSnapshotTerm = term
+	return true
+}
+
 func (r *raftState) getCommitIndex() uint64 {
 	return atomic.LoadUint64(&r.commitIndex)
 }
